@@ -157,11 +157,16 @@ def readerHolds (all final : List Rec) (positions : List Int) (lens : List Nat) 
 
 def lenPrefixed (b : Bytes) : Bytes := RW.beN 4 b.length ++ b
 
-/-- the driver's `Digest`: crc32 of key, value, 8-byte timestamp, headers (null and empty identified) -/
+/-- a nullable byte string: null has the length prefix 0xffffffff -/
+def optPrefixed : Option Bytes → Bytes
+  | none => RW.beN 4 0xffffffff
+  | some b => lenPrefixed b
+
+/-- the driver's `Digest`: crc32 of key, value, 8-byte timestamp, headers (null ≠ empty) -/
 def digestOf (key value : Option Bytes) (ts : Int) (hs : List Spec.RB.Hdr) : Nat :=
   Crc.crc32 Crc.polyIEEE
-    (lenPrefixed (key.getD []) ++ lenPrefixed (value.getD []) ++ RW.beN 8 (RW.toU RW.M64 ts) ++
-      hs.flatMap (fun h => lenPrefixed h.key ++ lenPrefixed (h.value.getD [])))
+    (optPrefixed key ++ optPrefixed value ++ RW.beN 8 (RW.toU RW.M64 ts) ++
+      hs.flatMap (fun h => lenPrefixed h.key ++ optPrefixed h.value))
 
 def tokCfg : TokCfg :=
   { crcs := { ieee := Crc.crc32 Crc.polyIEEE, castagnoli := Crc.crc32 Crc.polyCastagnoli },
@@ -200,12 +205,12 @@ def brWalk : Nat → Option (H2 × Nat) → Bytes → List Tok
                   match BR.readBodyV1 ⟨rest, rest.length⟩ with
                   | .error _ => [.cut]
                   | .ok ((k, v), r') =>
-                    Tok.kv (digestOf (some k) (some v) ts []) (rest.length - r'.bs.length) :: brWalk fuel none r'.bs
+                    Tok.kv (digestOf k v ts []) (rest.length - r'.bs.length) :: brWalk fuel none r'.bs
       | some (h, k) =>
         match BR.readRecordV2 ⟨bs, bs.length⟩ with
         | .error _ => [.cut]
         | .ok (v, r') =>
-          Tok.r2 v.offDelta (digestOf (some v.key) (some v.value) (h.firstTs + v.tsDelta) (v.headers.map fun x => ⟨x.1, some x.2⟩))
+          Tok.r2 v.offDelta (digestOf v.key v.value (h.firstTs + v.tsDelta) (v.headers.map fun x => ⟨x.1, x.2⟩))
               v.consumed.toNat ::
             brWalk fuel (if k ≤ 1 then none else some (h, k - 1)) r'.bs
 
